@@ -3,7 +3,8 @@
 cd /verif
 jobs=()
 for d in /tmp/mut_*; do
-  [ -f $d/MUTANT/patch.diff ] || continue
+  [ -f $d/MUTANT/patch.diff ] && [ -f $d/MUTANT/meta.json ] || continue
+  [ -f $d/MUTANT/DONE ] || continue     # touched by hand when the sub-agent has reported completion
   tag=$(basename $d | sed 's/mut_//')          # C05b
   prop=${tag:0:3}
   round=${tag:3}
